@@ -70,6 +70,37 @@ def setup_tree() -> Dict[str, Any]:
     return _state
 
 
+def own_code_objects() -> List[Any]:
+    """Code objects of PyDBML's own parser / model modules (the frames in which
+    PyDBML-level sharing bugs live), for opcode-level pre-emption."""
+    import types
+    out: List[Any] = []
+    seen = set()
+
+    def walk(c: Any) -> None:
+        if id(c) in seen:
+            return
+        seen.add(id(c))
+        out.append(c)
+        for k in c.co_consts:
+            if isinstance(k, types.CodeType):
+                walk(k)
+    for name, mod in sorted(sys.modules.items()):
+        if mod is None or not (name.startswith("pydbml.parser") or name.startswith("pydbml._classes")
+                               or name in ("pydbml.database", "pydbml.tools")):
+            continue
+        for v in list(vars(mod).values()):
+            if isinstance(v, types.FunctionType) and v.__module__ == name:
+                walk(v.__code__)
+            elif isinstance(v, type) and v.__module__ == name:
+                for a in list(vars(v).values()):
+                    f = a.__func__ if isinstance(a, (staticmethod, classmethod)) else (
+                        a.fget if isinstance(a, property) else a)
+                    if isinstance(f, types.FunctionType):
+                        walk(f.__code__)
+    return out
+
+
 def call_parse(text: str, ap: bool, rend: str) -> Any:
     st = _state
     kw: Dict[str, Any] = {"allow_properties": ap}
@@ -260,7 +291,8 @@ def gen_workload(rseed: int, tier: str) -> Dict[str, Any]:
             src = pool if g.random() < 0.5 else (valid_s + invalid_s)
             warm.append([g.choice(src), g.random() < 0.5])
     used = sorted({op[1] for ops in threads for op in ops if op[0] == "parse"} | {w[0] for w in warm})
-    return {"threads": threads, "warm": warm,
+    opcodes = nthreads > 1 and g.random() < 0.3
+    return {"threads": threads, "warm": warm, "opcodes": opcodes,
             "docs": {str(i): docs[i]["text"] for i in used},
             "doc_names": {str(i): docs[i]["name"] for i in used},
             "pristine": {f"{i}:{a}": pristine[f"{i}:{a}"] for i in used for a in (0, 1)},
@@ -279,7 +311,7 @@ def gen_policy(rseed: int, wl: Dict[str, Any]) -> S.Policy:
                 c = wl["calib"].get(f"{op[1]}:{int(op[2])}", [3000, 100000])
                 o += c[0]
                 d += c[1]
-        hor_own.append(max(o, 50))
+        hor_own.append(max(o, 50) * (8 if wl.get("opcodes") else 1))
         hor_dep.append(max(d, 500))
     mode = g.choice(["pct-own", "pct-own", "pct-own", "pct-dep", "bernoulli", "bernoulli", "quantum", "region"])
     if len(wl["threads"]) == 1:
@@ -453,6 +485,8 @@ def execute(wl: Dict[str, Any], policy: S.Policy, step_cap: int = 20_000_000) ->
         return script
 
     sc = S.Scheduler(policy, st["own_root"], st["dep_root"], step_cap=step_cap)
+    if wl.get("opcodes"):
+        sc.enable_opcodes(own_code_objects())
     sc.parses_finished = 0
     sc.cold_overlap = False
     S.set_active(sc)
@@ -524,7 +558,7 @@ def execute(wl: Dict[str, Any], policy: S.Policy, step_cap: int = 20_000_000) ->
                            "policy": policy.describe(), "harness": harness,
                            "steps": sc.total_steps, "switches": len(sc.voluntary),
                            "overlap": sc.overlap_seen, "cold_overlap": sc.cold_overlap,
-                           "hot_switches": sc.hot_switches,
+                           "hot_switches": sc.hot_switches, "opcodes": sc.opcodes,
                            "lock_contention": sum(getattr(l, "contended", 0) for l in st["locks"]),
                            "per_thread_steps": [[t.own, t.dep] for t in sc.threads]}
     return out
@@ -622,6 +656,8 @@ class E1Driver:
             counters["probe:two-threads-inside-parse"] = 1
         if res["cold_overlap"]:
             counters["fault:cold-start-concurrency"] = 1
+        if res.get("opcodes"):
+            counters["fault:opcode-level-pre-emption-run"] = 1
         aps = {op[2] for ops in wl["threads"] for op in ops if op[0] == "parse"}
         if len(aps) == 2 and len(wl["threads"]) > 1:
             counters["fault:option-mix"] = 1
@@ -640,7 +676,7 @@ class E1Driver:
             v = res["violations"][0]
             payload = {"engine": "E1", "property": PROP, "seed": seed, "run": i, "run_seed": rseed,
                        "hashseed": hashseed, "tier": tier,
-                       "workload": {k: wl[k] for k in ("threads", "warm", "docs", "doc_names", "pristine")},
+                       "workload": {k: wl[k] for k in ("threads", "warm", "opcodes", "docs", "doc_names", "pristine")},
                        "schedule": res["schedule"], "policy": res["policy"], "violation": v,
                        "all_violations": [x["signature"] for x in res["violations"]],
                        "event_digest": sched_dig, "ops": [None] * (res["switches"] + sum(len(o) for o in wl["threads"]))}
